@@ -268,6 +268,11 @@ def run(spec, rec):
                 if folded:
                     rm.flat[0] = True
                 k = noncorner(rd.shape) & ~rm
+                if not folded:
+                    # an unfolded source with nothing masked: pooling and re-dealing keeps the two corner classes where they are
+                    # (weight exactly 1), so every entry is compared and the total includes them
+                    k = np.ones(rd.shape, bool)
+                    rd = np.asarray(ref, float)
                 rec.close("scramble", relerr(np.asarray(got.data)[k], rd[k], scale=np.max(np.abs(rd))), 1e-10,
                           site="Spectrum.scramble_pop_ids", tags=t)
                 rec.check("folded-flag", bool(got.folded) == folded, site="Spectrum.scramble_pop_ids", tags=t)
